@@ -727,9 +727,12 @@ func c06Child(line string) (string, []Fail) {
 		nf := 0
 		for _, l := range lines[1:] {
 			l = strings.TrimSpace(l)
-			if strings.HasPrefix(l, "/repo/") && nf < 8 { // frames of the code under test
+			if strings.HasPrefix(l, "/") && strings.Contains(l, ".go:") && nf < 12 { // the first frames
 				if i := strings.Index(l, " +0x"); i > 0 {
 					l = l[:i]
+				}
+				if i := strings.Index(l, "/pkg/mod/"); i >= 0 {
+					l = l[i+9:]
 				}
 				msg += " < " + strings.TrimPrefix(l, "/repo/")
 				nf++
